@@ -39,6 +39,7 @@ def option_combos(style: str) -> list[dict]:
     return [dict(zip(names, bits)) for bits in itertools.product((False, True), repeat=len(names))]
 
 
+_COMBOS = {style: option_combos(style) for style in STYLES}
 ALL_COMBOS = [(style, opts) for style in STYLES for opts in option_combos(style)]
 N_COMBOS = len(ALL_COMBOS)  # 266
 
@@ -48,8 +49,11 @@ def combos_for(case: dict) -> list[tuple[str, dict]]:
     styles = [case["style"]] if case.get("style") else list(STYLES)
     fixed = case.get("opts") or {}
     out = []
+    gmasks = case.get("gmasks")
     for style in styles:
-        for opts in option_combos(style):
+        for i, opts in enumerate(_COMBOS[style]):
+            if style == "google" and gmasks is not None and i not in gmasks:
+                continue
             if all(opts.get(k, v) == v for k, v in fixed.items() if k in opts):
                 out.append((style, opts))
     return out
@@ -247,142 +251,237 @@ def case_text(case: dict) -> str:
     return render(case["lines"])
 
 
-# --------------------------------------------------------------------------------------------- strategies
-def _caps():
+# --------------------------------------------------------------------------------------------- decoder
+# The generator is a deterministic decoder from a byte string to a case; Hypothesis supplies the bytes
+# (st.binary) and so does the Atheris target (structure-aware mode). Every decision consumes one byte
+# (value modulo the pool size; weights are expressed by repeating pool entries); an exhausted source
+# yields zeros, i.e. the first entry of every pool, so short inputs decode to short simple texts.
+class Src:
+    __slots__ = ("d", "i")
+
+    def __init__(self, data: bytes):
+        self.d = data
+        self.i = 0
+
+    def byte(self) -> int:
+        if self.i < len(self.d):
+            b = self.d[self.i]
+            self.i += 1
+            return b
+        return 0
+
+    def pick(self, seq):
+        return seq[self.byte() % len(seq)]
+
+    def below(self, n: int) -> int:
+        return self.byte() % n
+
+    @property
+    def exhausted(self) -> bool:
+        return self.i >= len(self.d)
+
+
+# item syntaxes of all three styles as (name, type, description) -> line; type-less forms are repeated (they reach the
+# "annotation from the parent" code paths)
+ITEM_FORMS = (
+    lambda n, t, d: f"{n}: {d}",
+    lambda n, t, d: f"{n} ({t}): {d}",
+    lambda n, t, d: f"{n} : {t}",
+    lambda n, t, d: f"{n} :",
+    lambda n, t, d: f"{n} :",
+    lambda n, t, d: f"{n}",
+    lambda n, t, d: f"{n}:",
+    lambda n, t, d: f": {t}",
+    lambda n, t, d: ":",
+    lambda n, t, d: ":",
+    lambda n, t, d: f"{d}",
+    lambda n, t, d: f"({t}): {d}",
+    lambda n, t, d: f"{t}: {d}",
+    lambda n, t, d: f"{t}",
+    lambda n, t, d: f"{n}, {n}2 : {t}",
+    lambda n, t, d: f"{n}({t}): {d}",
+    lambda n, t, d: f"{n}({t})",
+    lambda n, t, d: f"{n} ({t}, optional): {d}",
+    lambda n, t, d: f"{n} : {t}, optional",
+    lambda n, t, d: f"{n} : {t}, default {d}",
+    lambda n, t, d: f"{n}: {d}",
+)
+ODD_ITEMS = (":", " :", ": ", "():", "( ):", "(", ")", "x (", "x (int", "x int): d", "x (int) y: d", "(int)", "int", "ValueError", "ValueError: msg",
+             "UserWarning", "0.1.0", "1.2", "*: d", "a : int, default", "a : , optional", "a : {", "a : {}", "a :int", "a: int", "a:b:c", "a ::")  # fmt: skip
+ODD_SPHINX = (":param a b c d: e", ":param  a: two spaces", ":type a:", ":rtype:", ":returns:", ":param:", ":param :", ":raises :",
+              ":type a: int or str or None", ":param a:b", ":param a::", "::param a: x", ":return: x: y", ":rtype : int", ":var : x", ":ivar: x",
+              ":vartype : T")  # fmt: skip
+CAPS = (str.capitalize, str.lower, str.title, str.upper, lambda s: "".join(ch.upper() if i % 2 else ch for i, ch in enumerate(s)), str.capitalize, str.lower)
+_HOT = ("returns", "yields", "receives")
+G_HEADS = GOOGLE_KW + _HOT * 3 + ("attributes", "parameters", "note", "see also", "example")
+N_HEADS = NUMPY_KW + _HOT * 3 + ("attributes", "parameters", "notes", "warnings", "see also")
+BASES = (0, 0, 0, 0, 0, 0, 0, 4, 2, 8)
+DELTAS = (4, 4, 4, 4, 2, 8, 1, 0, 3, 6)
+TITLES = ("", "", "", "", "", " ", " Title", " Title with: colon", " \t", "  x", " :", ":")
+ABOVE = (("",), ("",), ("",), ("",), ("", ""), (" ",), ("\t",), (), ())
+GAPS = ((), (), (), (), (), (), ("",), (" ",))
+G_CONT = (2, 2, 2, 1, 0, 3)
+N_CONT = (4, 4, 4, 4, 0, 2, 8, 1)
+N_TAILS = ("", "", "", "", "", "", " ", ":", "  ")
+SUMMARIES = ((), (), ("Summary.",), ("Summary.", ""), ("Summary.", ""), ("int: Summary.", ""), ("Summary", "second line"), ("Summary.", "", "More text.", ""))
+PROSE_WORDS = WORDS + COLON_PROSE
+
+
+def _words(src: Src, lo: int = 0, hi: int = 3) -> str:
+    return " ".join(src.pick(PROSE_WORDS) for _ in range(lo + src.below(hi - lo + 1)))
+
+
+def _item(src: Src, sec_form: int) -> str:
+    how = src.below(10)
+    if how == 9:
+        return src.pick(ODD_ITEMS)
+    form = sec_form if how < 7 else src.below(len(ITEM_FORMS))
+    return ITEM_FORMS[form](src.pick(NAMES), src.pick(TYPES), _words(src))
+
+
+def _sphinx(src: Src) -> str:
+    how = src.below(7)
+    f = src.pick(SPHINX_FIELDS)
+    if how == 0:
+        return f":{f} {src.pick(NAMES)}: {_words(src)}"
+    if how == 1:
+        return f":{f} {src.pick(TYPES)} {src.pick(NAMES)}: {_words(src)}"
+    if how == 2:
+        return f":{f}: {_words(src)}"
+    if how == 3:
+        return f":{f} {src.pick(NAMES)}"
+    if how == 4:
+        return f":{f} {src.pick(NAMES)}: {src.pick(TYPES)}"
+    if how == 5:
+        return f":{f}"
+    return src.pick(ODD_SPHINX)
+
+
+def _cont_body(src: Src) -> str:
+    how = src.below(8)
+    if how < 3:
+        return _words(src, 1, 3)
+    if how == 3:
+        return src.pick(BLANKS)
+    if how == 4:
+        return _item(src, src.below(len(ITEM_FORMS)))
+    if how == 5:
+        return src.pick(DOCTEST)
+    if how == 6:
+        return src.pick(FENCES)
+    return src.pick(DASHES)
+
+
+def _head(src: Src, pool) -> str:
+    kw = src.pick(pool) if src.below(5) else src.pick(KEYWORDS)
+    return src.pick(CAPS)(kw)
+
+
+def _loose(src: Src, out: list) -> None:
+    how = src.below(12)
+    ind = src.pick(INDENTS)
+    if how < 2:
+        body = _words(src, 1, 3)
+    elif how == 2:
+        body = src.pick(BLANKS)
+    elif how == 3:
+        body = src.pick(DASHES)
+    elif how == 4:
+        body = src.pick(FENCES)
+    elif how == 5:
+        body = src.pick(DOCTEST)
+    elif how == 6:
+        body = _item(src, src.below(len(ITEM_FORMS)))
+    elif how == 7:
+        body = _sphinx(src)
+    elif how == 8:
+        body = _head(src, KEYWORDS)
+    elif how == 9:
+        body = _head(src, KEYWORDS) + ":"
+    elif how == 10:
+        body = _head(src, KEYWORDS) + ": " + _words(src)
+    else:
+        body = src.pick(COLON_PROSE)
+    out.append([ind, body])
+
+
+def _google_section(src: Src, out: list) -> None:
+    b, d = src.pick(BASES), src.pick(DELTAS)
+    for s in src.pick(ABOVE):
+        out.append(["", s])
+    out.append([" " * b, _head(src, G_HEADS) + ":" + src.pick(TITLES)])
+    for s in src.pick(GAPS):
+        out.append(["", s])
+    sec_form = src.below(len(ITEM_FORMS))
+    for _ in range(src.pick((1, 2, 3, 4, 3, 2, 0))):
+        out.append([" " * (b + d), _item(src, sec_form)])
+        for _ in range(src.pick((0, 0, 1, 0, 2, 3))):
+            out.append([" " * (b + d * src.pick(G_CONT)), _cont_body(src)])
+
+
+def _numpy_section(src: Src, out: list) -> None:
+    b = src.pick(BASES)
+    for s in src.pick(ABOVE):
+        out.append(["", s])
+    head = _head(src, N_HEADS)
+    out.append([" " * b, head + src.pick(N_TAILS)])
+    out.append([" " * b, "-" * len(head) if src.below(4) else src.pick(DASHES)])
+    sec_form = src.below(len(ITEM_FORMS))
+    for _ in range(src.pick((1, 2, 3, 4, 3, 2, 0))):
+        out.append([" " * b, _item(src, sec_form)])
+        for _ in range(src.pick((1, 0, 1, 0, 2, 3))):
+            out.append([" " * (b + src.pick(N_CONT)), _cont_body(src)])
+
+
+def _sphinx_block(src: Src, out: list) -> None:
+    b = src.pick(BASES)
+    for _ in range(1 + src.below(4)):
+        out.append([" " * b, _sphinx(src)])
+        for _ in range(src.pick((0, 0, 1, 0, 2))):
+            out.append([" " * (b + src.pick((4, 0, 2, 8))), _sphinx(src) if src.below(4) == 0 else (src.pick(BLANKS) if src.below(4) == 0 else _words(src, 1, 3))])
+
+
+def _examples_block(src: Src, out: list) -> None:
+    b = src.pick((0, 4, 8))
+    for _ in range(1 + src.below(5)):
+        how = src.below(6)
+        body = src.pick(DOCTEST) if how < 3 else src.pick(FENCES) if how == 3 else src.pick(BLANKS) if how == 4 else _words(src, 1, 3)
+        out.append([" " * b, body])
+
+
+_BLOCKS = (_google_section, _numpy_section, _loose, _google_section, _numpy_section, _loose, _google_section, _numpy_section, _sphinx_block, _examples_block)
+
+
+def decode(data: bytes) -> dict:
+    """bytes -> case {"parent", "lines"[, "prose"][, "gmasks"]}.
+
+    `gmasks` (a list of Google option masks, index into itertools.product((False, True), repeat=8)) restricts the Google
+    option combinations for this text; without it all 256 are run. Numpy (8) and Sphinx (2) combinations are always complete."""
+    src = Src(data)
+    case: dict = {"parent": src.pick(PARENT_IDS)}
+    mode = src.below(16)
+    if mode != 0:  # 15/16: all-false, all-true and six sampled Google option combinations; 1/16: all 256
+        case["gmasks"] = sorted({0, 255, *(src.byte() for _ in range(6))})
+    lines: list = []
+    if mode >= 13:  # 3/16 prose-only texts
+        case["prose"] = True
+        for _ in range(src.below(9)):
+            how = src.below(8)
+            body = src.pick(BLANKS) if how == 0 else src.pick(PROSE_FENCES) if how == 1 else " ".join(src.pick(PROSE_ONLY) for _ in range(1 + src.below(3)))
+            lines.append([src.pick(INDENTS), body])
+    else:
+        for s in src.pick(SUMMARIES):
+            lines.append(["", s])
+        for _ in range(src.pick((1, 2, 3, 4, 5, 6, 2, 1, 3, 0))):
+            src.pick(_BLOCKS)(src, lines)
+    case["lines"] = lines
+    return case
+
+
+def soup_cases():
     from hypothesis import strategies as st
 
-    def weird(s):
-        return "".join(ch.upper() if i % 2 else ch for i, ch in enumerate(s))
-
-    return st.sampled_from((str.lower, str.title, str.capitalize, str.upper, weird))
-
-
-def soup_lines(max_blocks: int = 7):
-    """Strategy of line lists [[indent, body], ...] built from structured blocks and loose lines."""
-    from hypothesis import strategies as st
-
-    sf = st.sampled_from
-    indent = sf(INDENTS)
-    name = sf(NAMES)
-    typ = sf(TYPES)
-    word = sf(WORDS + COLON_PROSE)
-    desc = st.lists(word, min_size=0, max_size=3).map(" ".join)
-    kw = st.tuples(sf(KEYWORDS), _caps()).map(lambda p: p[1](p[0]))
-    gkw = st.tuples(sf(GOOGLE_KW + ("note", "see also", "example")), _caps()).map(lambda p: p[1](p[0]))
-    nkw = st.tuples(sf(NUMPY_KW + ("notes", "warnings", "see also")), _caps()).map(lambda p: p[1](p[0]))
-
-    # one-line item syntaxes of all three styles
-    item = st.one_of(
-        st.tuples(name, typ, desc).map(lambda p: f"{p[0]} ({p[1]}): {p[2]}"),
-        st.tuples(name, desc).map(lambda p: f"{p[0]}: {p[1]}"),
-        st.tuples(name, typ).map(lambda p: f"{p[0]} : {p[1]}"),
-        st.tuples(name, name, typ).map(lambda p: f"{p[0]}, {p[1]} : {p[2]}"),
-        typ.map(lambda t: f": {t}"),
-        typ.map(lambda t: f"({t}): d"),
-        st.tuples(typ, desc).map(lambda p: f"{p[0]}: {p[1]}"),
-        name,
-        name.map(lambda n: f"{n} :"),
-        name.map(lambda n: f"{n}:"),
-        st.tuples(name, typ).map(lambda p: f"{p[0]}({p[1]}): sig"),
-        st.tuples(name, typ).map(lambda p: f"{p[0]}({p[1]})"),
-        sf((":", " :", ": ", "():", "( ):", "(", ")", "x (", "x (int", "x int): d", "x (int) y: d", "(int)", "int", "ValueError", "ValueError: msg",
-            "UserWarning", "0.1.0", "1.2", "x (int, optional): d", "*: d", "a : int, default", "a : , optional", "a : {", "a : {}", "a :int", "a: int")),  # fmt: skip
-    )
-    sphinx = st.one_of(
-        st.tuples(sf(SPHINX_FIELDS), name, desc).map(lambda p: f":{p[0]} {p[1]}: {p[2]}"),
-        st.tuples(sf(SPHINX_FIELDS), typ, name, desc).map(lambda p: f":{p[0]} {p[1]} {p[2]}: {p[3]}"),
-        st.tuples(sf(SPHINX_FIELDS), desc).map(lambda p: f":{p[0]}: {p[1]}"),
-        st.tuples(sf(SPHINX_FIELDS), name).map(lambda p: f":{p[0]} {p[1]}"),
-        st.tuples(sf(SPHINX_FIELDS), name, typ).map(lambda p: f":{p[0]} {p[1]}: {p[2]}"),
-        sf(SPHINX_FIELDS).map(lambda f: f":{f}"),
-        sf((":param a b c d: e", ":param  a: two spaces", ":type a:", ":rtype:", ":returns:", ":param:", ":param :", ":raises :", ":type a: int or str or None",
-            ":param a:b", ":param a::", "::param a: x", ":return: x: y", ":rtype : int")),  # fmt: skip
-    )
-    loose_body = st.one_of(
-        word, desc, sf(BLANKS), sf(DASHES), sf(FENCES), sf(DOCTEST), item, sphinx, kw, kw.map(lambda k: k + ":"),
-        st.tuples(kw, desc).map(lambda p: f"{p[0]}: {p[1]}"),
-    )  # fmt: skip
-    loose = st.tuples(indent, loose_body).map(lambda p: [list(p)])
-
-    deltas = sf((4, 4, 4, 2, 8, 1, 0, 3, 6))
-    base = sf((0, 0, 0, 4, 2, 8))
-
-    def sp(n):
-        return " " * n
-
-    title = sf(("", "", "", " ", " Title", " Title with: colon", " \t", "  x", " :", ":"))
-    blank_sep = st.lists(sf(BLANKS), min_size=0, max_size=2)
-
-    # google section: [blank] header, then items at base+delta with continuation lines at base+2*delta (or anything)
-    g_item = st.tuples(item, st.lists(st.tuples(sf((2, 2, 1, 0, 3)), st.one_of(word, sf(BLANKS), item, sf(DOCTEST), sf(FENCES))), max_size=3))
-
-    def g_section(p):
-        b, d, head, ttl, seps, items, gap = p
-        out = [["", s] for s in seps]
-        out.append([sp(b), f"{head}:{ttl}"])
-        out += [["", s] for s in gap]
-        for first, conts in items:
-            out.append([sp(b + d), first])
-            for mult, body in conts:
-                out.append([sp(b + d * mult), body])
-        return out
-
-    google_section = st.tuples(
-        base, deltas, st.one_of(gkw, kw), title, blank_sep, st.lists(g_item, min_size=0, max_size=4), sf(((), (), (), (), ("",), (" ",)))
-    ).map(g_section)
-
-    # numpy section: header, dash line, items at base with descriptions at base+4
-    n_item = st.tuples(item, st.lists(st.tuples(sf((4, 4, 4, 0, 2, 8, 1)), st.one_of(word, sf(BLANKS), item, sf(DOCTEST), sf(FENCES), sf(DASHES))), max_size=3))
-
-    def n_section(p):
-        b, head, dash, seps, items, tail = p
-        out = [["", s] for s in seps]
-        out.append([sp(b), head + tail])
-        out.append([sp(b), dash if dash is not None else "-" * len(head)])
-        for first, conts in items:
-            out.append([sp(b), first])
-            for off, body in conts:
-                out.append([sp(b + off), body])
-        return out
-
-    numpy_section = st.tuples(
-        base, st.one_of(nkw, kw), st.one_of(st.none(), sf(DASHES)), blank_sep, st.lists(n_item, min_size=0, max_size=4), sf(("", "", "", " ", ":", "  "))
-    ).map(n_section)
-
-    # sphinx field with continuation lines
-    def s_block(p):
-        b, fields = p
-        out = []
-        for first, conts in fields:
-            out.append([sp(b), first])
-            for off, body in conts:
-                out.append([sp(b + off), body])
-        return out
-
-    sphinx_block = st.tuples(
-        base, st.lists(st.tuples(sphinx, st.lists(st.tuples(sf((4, 0, 2, 8)), st.one_of(word, sf(BLANKS), sphinx)), max_size=2)), min_size=1, max_size=4)
-    ).map(s_block)
-
-    # examples-like block
-    def e_block(p):
-        b, bodies = p
-        return [[sp(b), body] for body in bodies]
-
-    examples_block = st.tuples(sf((0, 4, 8)), st.lists(st.one_of(sf(DOCTEST), sf(DOCTEST), sf(FENCES), sf(BLANKS), word), min_size=1, max_size=5)).map(e_block)
-
-    block = st.one_of(loose, loose, google_section, google_section, numpy_section, numpy_section, sphinx_block, examples_block)
-    return st.lists(block, min_size=0, max_size=max_blocks).map(lambda bs: [ln for b in bs for ln in b])
-
-
-def prose_lines(max_lines: int = 8):
-    """Lines with no section syntax of any style: no `identifier:` line, no dash-only line, no line starting with ':'.
-    (Colons only after a character that cannot be part of a Google section identifier.)"""
-    from hypothesis import strategies as st
-
-    sf = st.sampled_from
-    word = sf(PROSE_ONLY)
-    body = st.one_of(st.lists(word, min_size=1, max_size=3).map(" ".join), st.lists(word, min_size=1, max_size=3).map(" ".join), sf(BLANKS), sf(PROSE_FENCES))
-    return st.lists(st.tuples(sf(INDENTS), body).map(list), min_size=0, max_size=max_lines)
+    return st.binary(min_size=96, max_size=768).map(decode)
 
 
 def is_prose_only(text_lines: list[str]) -> bool:
@@ -404,10 +503,3 @@ def is_prose_only(text_lines: list[str]) -> bool:
     return True
 
 
-def soup_cases(prose_share: int = 6):
-    from hypothesis import strategies as st
-
-    parent = st.sampled_from(PARENT_IDS)
-    soup = st.builds(lambda p, ls: {"parent": p, "lines": ls}, parent, soup_lines())
-    prose = st.builds(lambda p, ls: {"parent": p, "lines": ls, "prose": True}, parent, prose_lines())
-    return st.one_of(*([soup] * prose_share), prose)
